@@ -293,6 +293,7 @@ impl Reducer<St, Act> for ScriptedReducer {
         let Some(w) = self.w.upgrade() else {
             return DispatchOp::Keep(state.clone(), None);
         };
+        w.enter_callback();
         w.log(K::RedB { store: self.store, tag: self.tag, act: action.id, n: state.n, h: state.h });
         if let Some((tag, gate)) = w.prog.stores[self.store].stepper {
             if tag == self.tag {
@@ -332,6 +333,7 @@ impl Reducer<St, Act> for ScriptedReducer {
 }
 
 fn effect_body(w: &Arc<World>, store: usize, spec: &EffSpec, disp: Option<Box<dyn Dispatcher<Act>>>) {
+    w.enter_callback();
     w.log(K::EffB { eff: spec.id });
     if let Some(g) = spec.gate {
         w.gates[g].take();
@@ -408,6 +410,7 @@ impl ScriptedMiddleware {
             return Ok(MiddlewareOp::ContinueAction);
         };
         let neff = effects.as_ref().map(|e| e.len()).unwrap_or(0);
+        w.enter_callback();
         w.log(K::MwB { store: self.store, tag: self.tag, hook, act: action.id, n: state.n, h: state.h, neff });
         if hook == 0 {
             if let Some((tag, gate)) = w.prog.stores[self.store].stepper {
@@ -506,6 +509,7 @@ struct ScriptedSub {
 impl Subscriber<St, Act> for ScriptedSub {
     fn on_notify(&self, state: &St, action: &Act) {
         let Some(w) = self.w.upgrade() else { return };
+        w.enter_callback();
         w.log(K::NotB { sub: self.sub, act: action.id, n: state.n, h: state.h, sel: state.sel });
         let cfg = &w.prog.subs[self.sub];
         if cfg.read_state {
@@ -526,6 +530,7 @@ impl Subscriber<St, Act> for ScriptedSub {
     }
     fn on_unsubscribe(&self) {
         if let Some(w) = self.w.upgrade() {
+            w.enter_callback();
             w.log(K::Unsub { sub: self.sub });
         }
     }
@@ -554,6 +559,12 @@ impl World {
             hist,
             prog,
         })
+    }
+
+    /// entry of a scripted user callback: user code takes time, so the scheduler may run somebody
+    /// else between the library's last synchronisation operation and the callback's first effect
+    pub fn enter_callback(&self) {
+        simrt::point(simrt::Op::User);
     }
 
     pub fn log(&self, k: K) {
@@ -623,6 +634,7 @@ impl World {
                 let wk = Arc::downgrade(self);
                 Arc::new(SelectorSubscriber::new(SelSel, move |val: u8, act: Act| {
                     if let Some(w) = wk.upgrade() {
+                        w.enter_callback();
                         w.log(K::SelCb { sub, val, act: act.id });
                     }
                 }))
@@ -632,6 +644,7 @@ impl World {
                 let wk = Arc::downgrade(self);
                 Arc::new(FnSubscriber::from(move |state: &St, action: &Act| {
                     if let Some(w) = wk.upgrade() {
+                        w.enter_callback();
                         w.log(K::NotB { sub, act: action.id, n: state.n, h: state.h, sel: state.sel });
                         w.log(K::NotE { sub, act: action.id });
                     }
@@ -756,6 +769,7 @@ impl World {
                             let sub = *sub;
                             Ok(s.subscribe_with_selector(SelSel, move |val: u8, act: Act| {
                                 if let Some(w) = wk.upgrade() {
+                                    w.enter_callback();
                                     w.log(K::SelCb { sub, val, act: act.id });
                                 }
                             }))
